@@ -244,6 +244,9 @@ func (s *sim) validBytes(id int) []byte {
 		if s.rng.Intn(2) == 0 {
 			p.OpCode = dhcpv4.OpcodeBootReply
 		}
+		if s.rng.Intn(5) == 0 {
+			p.OpCode = dhcpv4.OpcodeType([]int{0, 3, 4, 128, 255}[s.rng.Intn(5)]) // decodable is decodable: the op octet is the handler's business
+		}
 		// header fields over their whole range: the message handed to the handler is the datagram's decoding, field by field
 		pickU16 := func() uint16 {
 			return []uint16{0, 1, 255, 256, 512, 0xff00, 0x8000, 0xffff, uint16(s.rng.Intn(65536))}[s.rng.Intn(9)]
@@ -527,6 +530,9 @@ func (s *sim) run(t *testing.T, steps []step, randomN int) {
 		s.mu.Unlock()
 		if c && s.rng.Intn(3) > 0 {
 			return // (one time in three Close is called again on the closed server)
+		}
+		if !c && s.rng.Intn(2) == 0 {
+			doRead(0) // a read that has completed when Close lands: its datagram was received and is dispatched like any other
 		}
 		s.trace = append(s.trace, map[string]any{"a": "Close"})
 		s.Close()
